@@ -1,5 +1,7 @@
 import Rangers.Proofs.Evm10Mem
 import Rangers.Model.Evm10Call
+import Rangers.Model.Evm10Cache
+import Rangers.Proofs.Evm10Bitmap
 /-!
 # C10, part 6 — model growth: the call-family memory-size functions
 
@@ -250,5 +252,115 @@ theorem identityCall_returndata_counterexample : ¬ FullStatementIdentityReturnD
     0 32 16 32 (by decide)
   revert this
   decide
+
+
+/-! ## `Contract.isCode` with its caches (T-corr stream `jd` through hook `VerifJdSession`) -/
+
+/-- the caches say the truth about THIS contract: its own `analysis`, and the shared entry under
+its hash, are the bitmap of its code (what a collision-free code hash guarantees) -/
+def Coherent (c : JContract) (jd : JMap) : Prop :=
+  (∀ a, c.analysis = some a → a = Bitvec.codeBitmap c.code) ∧
+  (∀ h a, c.codeHash = some h → jd.find h = some a → a = Bitvec.codeBitmap c.code)
+
+/-- **With coherent caches `isCode` answers exactly "not PUSH data"**, whichever of its three
+branches runs, and leaves the caches coherent. -/
+theorem isCode_exact (c : JContract) (jd : JMap) (u : Nat) (hc : Coherent c jd) :
+    ((isCodeJ c jd u).1 = true ↔ ¬ InPushData c.code u) ∧
+    Coherent (isCodeJ c jd u).2.1 (isCodeJ c jd u).2.2 ∧ (isCodeJ c jd u).2.1.code = c.code := by
+  obtain ⟨h1, h2⟩ := hc
+  cases ha : c.analysis with
+  | some a =>
+    have e : isCodeJ c jd u = (Bitvec.codeSegment a u, c, jd) := by simp [isCodeJ, ha]
+    have := h1 a ha
+    subst this
+    rw [e]
+    exact ⟨codeSegment_codeBitmap c.code u, ⟨fun a' h' => h1 a' h', h2⟩, rfl⟩
+  | none =>
+    cases hh : c.codeHash with
+    | some h =>
+      cases hf : jd.find h with
+      | some a =>
+        have e : isCodeJ c jd u = (Bitvec.codeSegment a u, { c with analysis := some a }, jd) := by
+          simp [isCodeJ, ha, hh, hf]
+        have := h2 h a hh hf
+        subst this
+        rw [e]
+        refine ⟨codeSegment_codeBitmap c.code u, ⟨?_, ?_⟩, rfl⟩
+        · intro a' h'; simp at h'; exact h'.symm
+        · intro h' a' e1 e2; exact h2 h' a' e1 e2
+      | none =>
+        have e : isCodeJ c jd u = (Bitvec.codeSegment (Bitvec.codeBitmap c.code) u,
+            { c with analysis := some (Bitvec.codeBitmap c.code) }, (h, Bitvec.codeBitmap c.code) :: jd) := by
+          simp [isCodeJ, ha, hh, hf]
+        rw [e]
+        refine ⟨codeSegment_codeBitmap c.code u, ⟨?_, ?_⟩, rfl⟩
+        · intro a' h'; simp at h'; exact h'.symm
+        · intro h' a' e1 e2
+          have e1' : c.codeHash = some h' := e1
+          rw [hh] at e1'
+          have : h = h' := by simpa using e1'
+          subst this
+          simp [JMap.find] at e2
+          exact e2.symm
+    | none =>
+      have e : isCodeJ c jd u = (Bitvec.codeSegment (Bitvec.codeBitmap c.code) u,
+          { c with analysis := some (Bitvec.codeBitmap c.code) }, jd) := by
+        simp [isCodeJ, ha, hh]
+      rw [e]
+      refine ⟨codeSegment_codeBitmap c.code u, ⟨?_, ?_⟩, rfl⟩
+      · intro a' h'; simp at h'; exact h'.symm
+      · intro h' a' e1 _
+        have e1' : c.codeHash = some h' := e1
+        rw [hh] at e1'; simp at e1'
+
+example : Coherent ⟨[0x60, 0x5b, 0x5b], some [1], none⟩ [] :=
+  ⟨fun _ h => by simp at h, fun _ _ _ h => by simp [JMap.find] at h⟩
+
+/-- **Hash-less init code never writes the shared map** (each piece of CREATE init code gets its
+own analysis): the map after the call is the map before. -/
+theorem isCode_hashless_private (c : JContract) (jd : JMap) (u : Nat) (h : c.codeHash = none) :
+    (isCodeJ c jd u).2.2 = jd := by
+  unfold isCodeJ
+  cases c.analysis <;> simp [h]
+
+/-- … and a hashed contract changes at most the entry of its own hash. -/
+theorem isCode_other_entries_kept (c : JContract) (jd : JMap) (u : Nat) (h' : Bytes)
+    (hne : c.codeHash ≠ some h') : (isCodeJ c jd u).2.2.find h' = jd.find h' := by
+  cases ha : c.analysis with
+  | some a => simp [isCodeJ, ha]
+  | none =>
+    cases hh : c.codeHash with
+    | none => simp [isCodeJ, ha, hh]
+    | some h =>
+      cases hf : jd.find h with
+      | some a => simp [isCodeJ, ha, hh, hf]
+      | none =>
+        have : ¬ (h == h') = true := by
+          intro e; apply hne; rw [hh]; congr 1; simpa using e
+        simp [isCodeJ, ha, hh, hf, JMap.find, this]
+
+/-- `validJumpdest` through the caches: inside the code, a 0x5b byte, not PUSH data. -/
+theorem validJumpdestJ_iff (c : JContract) (jd : JMap) (dest : Word) (hc : Coherent c jd)
+    (hl : c.code.length < 2 ^ 64) :
+    (validJumpdestJ c jd dest).1 = true ↔
+      dest.toNat < c.code.length ∧ c.code.getD dest.toNat 0 = 0x5b ∧ ¬ InPushData c.code dest.toNat := by
+  unfold validJumpdestJ
+  by_cases hu : isUint64 dest = true
+  · have hlo : lo64 dest = dest.toNat := lo64_of_isUint64 dest hu
+    simp only [hu, hlo, Bool.not_true, Bool.false_or, decide_eq_true_eq]
+    by_cases hlt : dest.toNat < c.code.length
+    · have : ¬ dest.toNat ≥ c.code.length := by omega
+      simp only [this, if_false, hlt, true_and]
+      by_cases h5 : c.code.getD dest.toNat 0 = 0x5b
+      · simp only [h5, bne_self_eq_false, Bool.false_eq_true, if_false, true_and]
+        exact (isCode_exact c jd dest.toNat hc).1
+      · have : (c.code.getD dest.toNat 0 != 0x5b) = true := by rw [bne_iff_ne]; exact h5
+        simp only [this, if_true, Bool.false_eq_true, false_iff]
+        intro h; exact h5 h.1
+    · have : dest.toNat ≥ c.code.length := by omega
+      simp [this, hlt]
+  · have hge : ¬ dest.toNat < 2 ^ 64 := by simpa [isUint64] using hu
+    have : ¬ dest.toNat < c.code.length := by omega
+    simp [hu, this]
 
 end Rangers.Props.C10
